@@ -366,7 +366,13 @@ func (e *c11EMachine) apply(i int, op c11EOp) {
 					e.fail("C13.net-fees-follow-custody", what, "step %d: in this block the collector's custody of %s changed by %s, the recorded net fees by %s", i, d, dc, dn)
 				}
 			}
-			e.m.c13Invariants(i, vOp{K: "block"})
+			if e.closed == 0 {
+				e.m.c13Invariants(i, vOp{K: "block"})
+			} else {
+				// every close of a surplus or debt auction distorts the books (known findings C13-F1 / C13-F2): from the
+				// first close on, "custody backs the recorded net fees" would only restate them
+				e.r.Class("collector-custody-not-compared-after-an-english-close")
+			}
 		}
 	case "bid":
 		a, err := c.App.NewaucKeeper.GetAuction(c.Ctx, op.ID)
